@@ -903,6 +903,34 @@ class HeapOps(HeapExecutor):
                 for o2, acc in outs:
                     out.append((o2, VList(seq_of(acc)) if o2.running else None))
                 continue
+            # symbolic sequence VALUE (result of str.split, a tuple/list value of unknown length)
+            if it.op == 'ctor' and it.args[0] in ('VList', 'VTuple') and not gen.ifs:
+                src = it.args[1]
+                n = SeqLen(src)
+                seq = const(fresh_name('comp'), VSEQ)
+                j = bvar(fresh_name('j'), INT)
+                b = o.assume(And(Le(intlit(0), j), Lt(j, n)))
+                facts = [Eq(SeqLen(seq), n)]
+                if b is not None:
+                    item = SeqNth(src, j)
+                    if src in getattr(self, '_str_seqs', ()):
+                        item = VStr(Acc('sv', item))       # elements of a str.split result are str
+                    elems = []
+                    for a in self.assign(gen.target, item, b):
+                        if a.running:
+                            elems.extend(self.ev(e.elt, a))
+                    elems = [(s2, v) for s2, v in elems if s2.running or self.path_feasible(s2)]
+                    elems = self.merge(elems, b)
+                    if len(elems) == 1 and elems[0][0].running and elems[0][0].heap == b.heap:
+                        extra = list(elems[0][0].pc[len(b.pc):])
+                        facts.append(Forall([j], Implies(And(Le(intlit(0), j), Lt(j, n), *extra),
+                                                         Eq(SeqNth(seq, j), elems[0][1])),
+                                            patterns=[(SeqNth(seq, j),)]))
+                    elif any(not s2.running for s2, _ in elems):
+                        self.unsupported_if_feasible(o, 'list comprehension element may raise at line %s' % e.lineno)
+                        continue
+                out.append((o.assume(And(*facts)), VList(seq)))
+                continue
             # symbolic heap list / sequence value: fresh result sequence, length (and elements) by facts
             ref = o.assume(Is('VRef', it))
             if ref is None or not self.may_be_ref(it, o):
